@@ -44,6 +44,9 @@ type Result struct {
 	Assumptions []string               `json:"assumptions"`
 	WallS       float64                `json:"wall_s"`
 	Finished    bool                   `json:"finished"`
+	// StateKeys (optional): hashed canonical keys of the states this shard
+	// visited, so that the orchestrator can count the union over shards.
+	StateKeys []string `json:"state_keys,omitempty"`
 }
 
 type Run struct {
@@ -55,6 +58,7 @@ type Run struct {
 	out      string
 	replay   json.RawMessage
 	vkeys    map[string]int
+	skeys    map[string]bool
 }
 
 func envInt(k string, def int) int {
@@ -143,6 +147,22 @@ func (r *Run) Capped(why string) {
 	r.R.CapHit, r.R.Exhaustive = true, false
 	r.R.Extra["cap"] = why
 	r.mu.Unlock()
+}
+
+// StateKey records a visited state by canonical key; States is then the
+// number of distinct keys (and the union over shards in the evidence).
+func (r *Run) StateKey(k string) bool {
+	r.mu.Lock()
+	defer r.mu.Unlock()
+	if r.skeys == nil {
+		r.skeys = map[string]bool{}
+	}
+	if r.skeys[k] {
+		return false
+	}
+	r.skeys[k] = true
+	r.R.States++
+	return true
 }
 
 func (r *Run) Eval(n int64)  { r.mu.Lock(); r.R.Evaluations += n; r.mu.Unlock() }
@@ -234,6 +254,15 @@ func (r *Run) Finish() {
 	}
 	sort.Strings(keys)
 	r.R.Extra["violation_keys"] = keys
+	if r.skeys != nil && len(r.skeys) <= 300000 {
+		for k := range r.skeys {
+			if len(k) > 24 {
+				h := fnv64(k)
+				k = fmt.Sprintf("%016x%d", h, len(k))
+			}
+			r.R.StateKeys = append(r.R.StateKeys, k)
+		}
+	}
 	b, err := json.Marshal(&r.R)
 	if err != nil {
 		r.t.Fatalf("VERIF-INFRA marshal result: %v", err)
@@ -342,4 +371,13 @@ func Hex(b []byte) string {
 		o = append(o, []byte(fmt.Sprintf("..(%d)", len(b)))...)
 	}
 	return string(o)
+}
+
+func fnv64(s string) uint64 {
+	h := uint64(14695981039346656037)
+	for i := 0; i < len(s); i++ {
+		h ^= uint64(s[i])
+		h *= 1099511628211
+	}
+	return h
 }
